@@ -260,6 +260,27 @@ def r3_retry_condition(ctx):
                 o1 = T.origins_of_arg(c, 1)
                 if any(x.kind == "agg" and x.detail == "std::result::Result::Err" for x in o1):
                     okor = True
+        if not okor:
+            # explicit form: on the failure edge of new_unmasked() the function returns Err(<the lookup's own error>)
+            from ..cut import failure_edges
+            fe = failure_edges(b, T, t)
+            if fe:
+                reach = cfg.precise_reach(fe[0])
+                rets = []
+                for x in reach:
+                    xb = b.blocks[x]
+                    for i, s_ in enumerate(xb.stmts):
+                        if s_.kind == "assign" and s_.rv["k"] == "agg" and s_.rv.get("variant") == "Err" and s_.rv.get("adt") == "std::result::Result":
+                            ops = s_.rv_operands()
+                            if ops and ops[0].place is not None:
+                                rets.append(T.origins_of_operand(b, x, i, ops[0]))
+                    tt = xb.term
+                    if tt.kind == "call" and tt.callee == "std::ops::FromResidual::from_residual":
+                        rets.append(T.origins_of_arg(tt, 0))
+                def from_retry(os_):
+                    return any(o.kind == "call" and o.term is t for o in os_)
+                if rets and not any(from_retry(os_) for os_ in rets):
+                    okor = True
         (out.append(holds("C08.R3", key + ":original-error", t.where(), "handle creation failure -> the original error")) if okor else
          out.append(violated("C08.R3", key + ":original-error", t.where(), "failure to create the unmasked handle does not fall back to the original error")))
     return out
